@@ -25,6 +25,10 @@ CLAIMED = {
          'Static: native and circuit lookup/CTL evaluators emit the same skeleton of first-row / last-row / transition / all-rows constraints (one reviewed unreachable divergence, O1); the logUp evaluator anchors Z on the first row and updates it with an ALL-rows constraint; every CTL branch has a last-row anchor and a transition; each constraint is fed by the right columns; the CTL equality guard (and circuit twin) runs for every challenge of every CTL. The log-derivative algebra is not decided.', '5/C10'),
  'C11': ('twin obligation table for the STARK verifier circuit, transcript alignment, witness-assignment field coverage, variable-degree FRI obligation table, evaluator skeleton agreement',
          'Static: every native STARK verifier check has an in-circuit twin fed by the corresponding targets; get_challenges_target aligns with the native transcript; set_stark_proof_with_pis_target covers every target and value field; the variable-degree FRI circuit carries every FRI obligation tied to the degree selector; lookup/CTL evaluators agree. Equality of accepted sets is not decided.', '5/C11'),
+ 'C12': ('typestate pairing of capacity_up_to_mut / fill / set_len length expressions, slot-write coverage, unsafe-block census, Merkle obligation tables (native + circuit), leaf-digest function census',
+         'Static: uninitialised digest/cap buffers are filled and set_len uses the same length expression; both child slots and every cap slot are written; unsafe is confined to three reviewed blocks; Merkle verification consumes all siblings, orders two_to_one by the index bit and ends in a comparison/connect with the selected cap entry (native and circuit, unconditional); every leaf->digest conversion is hash_or_noop whose threshold is in bytes of the hasher. Value-level cap equality and index arithmetic are not decided.', '5/C12'),
+ 'C16': ('field-carriage data-flow for compress/decompress literals, shared-path obligations, schedule-traversal lint, rename-insensitive sibling comparison of the domain walk',
+         'Static: non-query fields are carried verbatim by the four compress/decompress routines; compressed verification and decompression derive challenges from the proof itself, infer elements, decompress and end in the same verify_with_challenges; the arity schedule is traversed in order and completely; get_inferred_elements passes the same definitions to the domain-walk calls as fri_verifier_query_round. Round-trip value equality is not decided.', '5/C16'),
  'C17': ('grammar extraction of reader/writer pairs from typed HIR (helpers expanded to byte-level primitives), field-order tracing through result literals/constructors, field coverage, registry comparison',
          'Static: all 58 read_*/write_* pairs and 41 serialize/deserialize pairs consume/emit the same primitive grammar; the k-th written item comes from the field the k-th read item ends in; every field of a serialised struct is written (or is reconstructed, reviewed); gate/generator registries enumerate every impl, in the same order on both sides, with distinct ids. Value round-trip and interchangeability of restored circuits are not decided.', '5/C17'),
  'C18': ('interprocedural taint over typed HIR (validators/decoders panic census), type-driven length-pin coverage, validate-before-use ordering',
